@@ -141,6 +141,13 @@ def run_ops(rec, hc, ops):
             evs.append(rec.call(op, keys, lambda v: hc.cas(keys[0], b"zzz", b"99999999"), "other"))
         elif op == "incr-missing":
             evs.append(rec.call(op, keys, lambda v: hc.incr(keys[0], 1), "other"))
+        elif op == "delete_many-acked":      # replies awaited: every key is still sent, whatever the earlier answers were
+            evs.append(rec.call(op, keys, lambda v: hc.delete_many(list(keys), noreply=False), "delete"))
+        elif op == "rejected":               # a request the per-server client refuses before sending: nothing changes for later calls
+            try:
+                hc.incr(keys[0], "not-a-number")
+            except Exception:   # noqa
+                pass
         else:
             raise ValueError(op)
     return evs
@@ -219,7 +226,7 @@ CHECK_DEADLOCK FALSE
         universe = []
         for i in range(rnd.randrange(1, 51)):
             t = rnd.random()
-            base = "key-%d-%d" % (ti, i)
+            base = {0: "ab", 9: "z", 18: "cd", 27: "k7"}.get(i, "key-%d-%d" % (ti, i))      # very short keys too (2 characters: not a pair)
             if t < 0.45:
                 universe.append(base)
             elif t < 0.7:
@@ -229,8 +236,8 @@ CHECK_DEADLOCK FALSE
         ops = []
         for _ in range(rnd.randrange(3, 9)):
             op = rnd.choice(["set", "set_many", "set_many", "get", "get_many", "get_many", "gets", "gets_many", "gat", "gats",
-                             "delete", "delete_many", "touch", "cas-stale", "incr-missing", "get_many"])
-            if op in ("set_many", "get_many", "gets_many", "delete_many"):
+                             "delete", "delete_many", "touch", "cas-stale", "incr-missing", "get_many", "delete_many-acked", "rejected"])
+            if op in ("set_many", "get_many", "gets_many", "delete_many", "delete_many-acked"):
                 ks = rnd.sample(universe, rnd.randrange(0, len(universe) + 1))
                 # one dict / list cannot carry the same (server, key) twice
                 seen, uniq = set(), []
@@ -284,6 +291,18 @@ CHECK_DEADLOCK FALSE
                 evs += run_ops(rec, hc, [("set", [k]), ("get_many", ["other-%d" % ki, k]), ("get", [k]), ("gets_many", [k]),
                                          ("delete", [k]), ("get", [k])])
                 traces.append({"h": {}, "ev": evs, "what": ("growth", nsrv, k)})
+    # ---- (iv) one memcached key spelled as str and as bytes (the same key to a plain Client): written under one spelling,
+    # read under the other
+    twin_at = len(traces)
+    for nsrv in (2, 3, 5):
+        log = []
+        net, hc, specs, names = build(nsrv, make_logging_hasher(log), prefix=b"")
+        rec = Recorder(net, hc, specs, names, b"", log)
+        ops = []
+        for ki in range(12):
+            k = "twin-%d" % ki
+            ops += [("set", [k]), ("get", [k.encode()]), ("get_many", [k.encode(), "other"]), ("delete", [k.encode()]), ("get", [k])]
+        traces.append({"h": {}, "ev": run_ops(rec, hc, ops), "what": ("twin-spellings", nsrv)})
     for t in traces:
         t["h"] = {"maxrej": 4}
     acc, rej, st, _ = tlc.validate_traces("RouteTrace", [{"h": t["h"], "ev": t["ev"]} for t in traces], chunk=3000)
@@ -294,6 +313,12 @@ CHECK_DEADLOCK FALSE
         pos, clauses = lst[0]
         cl = ",".join(sorted(x.strip().strip('"') for x in clauses.strip("{}").split(",")))
         ev = t["ev"][pos - 1]
+        if t["what"][0] == "twin-spellings":
+            rep.violation("C12/str-and-bytes-spellings-of-one-key-are-placed-on-different-servers",
+                          f"HashClient with {t['what'][1]} servers: a key written as str is not found / deleted when addressed as the equal bytes "
+                          f"(event {pos} {ev.get('op')}: {cl}): the routing key is hashed as given, bytes through their repr",
+                          {"what": t["what"], "events": t["ev"][max(0, pos - 3): pos]})
+            continue
         rep.violation(f"C12/{t['what'][0]}/{ev.get('op')}/{cl}", f"{t['what']}: event {pos} {ev} rejected: {cl}",
                       {"what": t["what"], "events": t["ev"][: pos]})
     rep.set("evaluations", sum(len(t["ev"]) for t in traces))
